@@ -279,7 +279,10 @@ def step(world, op):
     if k == "attrib":
         world.cas.append(world.attrib(op[1]))
     elif k == "deco":
-        world.decos.append(world.mk_deco(op[1], op[2]))
+        try:
+            world.decos.append(world.mk_deco(op[1], op[2]))
+        except Exception as e:                     # noqa: BLE001  (the factory call itself raised)
+            world.decos.append(_exc_name(e))
     elif k == "newlist":
         world.lists.append([(VALS | CONVS | HOOKS)[s] for s in op[1]])
     elif k == "newmeta":
@@ -302,6 +305,8 @@ def step(world, op):
         world.dicts[op[1]].pop(op[2], None)
     elif k == "apply":
         try:
+            if isinstance(world.decos[op[1]], str):
+                raise {"ValueError": ValueError, "TypeError": TypeError}[world.decos[op[1]]]
             cls = exec_body(world, op[2])          # the body runs first (creates its attr.ib()s)
             cls = world.decos[op[1]](cls)
         except Exception as e:                     # noqa: BLE001
@@ -420,6 +425,9 @@ def fingerprint(cls):
         fp["assign"] = None
         return fp
     if init_kind == "gen":
+        for a in attr.fields(cls):
+            if not a.init and a.default is attr.NOTHING:
+                object.__setattr__(inst, a.name, 1)     # never set by __init__: fill in directly
         try:
             hash(inst)
             fp["hashes"] = True
@@ -460,6 +468,9 @@ def containers(world):
     }
 
 
+_alone_cache = {}
+
+
 def observe(ops):
     """Full run + alone runs.  Returns (full fingerprints, alone fingerprints, containers at the
     end, per-shared-attr.ib snapshot)."""
@@ -471,10 +482,528 @@ def observe(ops):
         cont = containers(w)
         alone = []
         for k in range(len(w.classes)):
-            wa = run_history(alone_ops(ops, k))
-            alone.append(fingerprint(wa.classes[-1]))
+            ao = alone_ops(ops, k)
+            key = repr(ao)
+            if key not in _alone_cache:
+                wa = run_history(ao)
+                _alone_cache[key] = fingerprint(wa.classes[-1])
+            alone.append(_alone_cache[key])
     finally:
         LOG.clear()
         for k in set(linecache.cache) - lc:
             linecache.cache.pop(k, None)
     return full, alone, cont
+
+
+# ------------------------------------------------------------------------------------------
+# Gallina encoders
+
+def opt_b(x):
+    return "None" if x is None else "(Some %s)" % b(x)
+
+
+def enc_seq(a):
+    if a is None:
+        return "SNone"
+    if a[0] == "one":
+        return "(SOne %s)" % q(a[1])
+    if a[0] == "lit":
+        return "(SLit %s)" % lst(q(s) for s in a[1])
+    return "(SList %d)" % a[1]
+
+
+def enc_hookarg(a):
+    if a is None:
+        return "HANone"
+    if a == "noop":
+        return "HANoOp"
+    return "(HASeq %s)" % enc_seq(a)
+
+
+def enc_meta(m):
+    if m is None:
+        return "MANone"
+    if m[0] == "lit":
+        return "(MALit %s)" % lst(q(k) for k in m[1])
+    return "(MADict %d)" % m[1]
+
+
+def enc_attrib(a):
+    return "(A %s %s %s %s %s %s %s)" % (
+        b(bool(a.get("d"))), enc_seq(a.get("v")), enc_seq(a.get("c")), enc_hookarg(a.get("h")),
+        b(bool(a.get("kw"))), b(a.get("init") is not False), enc_meta(a.get("m")))
+
+
+def enc_corehook(s):
+    return {"convert": "HConvert", "validate": "HValidate"}.get(s) or "(HUser %s)" % q(s)
+
+
+def enc_osarg(a):
+    if a is None:
+        return "(OsaVal COsNone)"
+    if a == "noop":
+        return "(OsaVal COsNoOp)"
+    if a[0] == "one":
+        return "(OsaVal (COsSingle %s))" % enc_corehook(a[1])
+    if a[0] == "lit":
+        return "(OsaVal (COsPipe %s))" % lst(enc_corehook(s) for s in a[1])
+    return "(OsaList %d)" % a[1]
+
+
+S_DEFAULTS = dict(these=None, hash=None, unsafe_hash=None, init=None, slots=False, frozen=False,
+                  auto_attribs=False, kw_only=False, cache_hash=False, auto_exc=False, eq=None,
+                  order=None, auto_detect=False, collect_by_mro=False, on_setattr=None)
+D_DEFAULTS = dict(these=None, hash=None, unsafe_hash=None, init=None, slots=True, frozen=False,
+                  auto_attribs=None, kw_only=False, cache_hash=False, auto_exc=True, eq=None,
+                  order=False, auto_detect=True, on_setattr=None)
+
+
+def enc_attrs_args(kwargs, these=None):
+    k = dict(S_DEFAULTS)
+    assert set(kwargs) <= set(k), kwargs
+    k.update(kwargs)
+    th = "None" if k["these"] is None else "(Some (TRef %d))" % k["these"]
+    return "(AR %s %s %s %s %s %s %s %s %s %s %s %s %s %s %s)" % (
+        th, opt_b(k["hash"]), opt_b(k["unsafe_hash"]), opt_b(k["init"]), b(k["slots"]),
+        b(k["frozen"]), b(k["auto_attribs"]), b(k["kw_only"]), b(k["cache_hash"]), b(k["auto_exc"]),
+        opt_b(k["eq"]), opt_b(k["order"]), b(k["auto_detect"]), b(k["collect_by_mro"]),
+        enc_osarg(k["on_setattr"]))
+
+
+def enc_define_cells(kind, kwargs):
+    k = dict(D_DEFAULTS)
+    assert set(kwargs) <= set(k), kwargs
+    if kind == "frozen":
+        k["frozen"] = True
+    k.update(kwargs)
+    th = "None" if k["these"] is None else "(Some %d)" % k["these"]
+    return "(DC %s %s %s %s %s %s %s %s %s %s %s %s %s %s)" % (
+        th, opt_b(k["hash"]), opt_b(k["unsafe_hash"]), opt_b(k["init"]), b(k["slots"]),
+        b(k["frozen"]), opt_b(k["auto_attribs"]), b(k["kw_only"]), b(k["cache_hash"]),
+        b(k["auto_exc"]), opt_b(k["eq"]), opt_b(k["order"]), b(k["auto_detect"]),
+        enc_osarg(k["on_setattr"]))
+
+
+def enc_base(name):
+    f = BASE_FACTS[name]
+    return "(BI %s %s %s %s %s %s %s)" % (
+        b(f["frozen"]), b(f["exc"]), b(f["ownsa"]), b(f["hashable"]), b(f["pre"]), b(f["post"]),
+        lst("(BA %s %s)" % (q(n), lst(q(v) for v in vs)) for n, vs in f["attrs"]))
+
+
+def enc_body(spec):
+    fs = []
+    for f in spec["fields"]:
+        e = f["e"]
+        ent = {"val": "EVal", "none": "ENoVal"}.get(e)
+        if e == "own":
+            ent = "(EOwn %s)" % enc_attrib(f["a"])
+        elif e == "shared":
+            ent = "(EShared %d)" % f["sid"]
+        fs.append("(F %s %s %s %s)" % (q(f["n"]), ent, b(bool(f.get("ann"))), b(bool(f.get("cv")))))
+    own = spec.get("own", {})
+    return "(CB %s %s %s %s %s %s %s %s)" % (
+        lst(fs), b(bool(own.get("hash"))), b(bool(own.get("eq"))), b(bool(own.get("setattr"))),
+        b(bool(own.get("init"))), b(bool(own.get("pre"))), b(bool(own.get("post"))),
+        enc_base(spec.get("base", "obj")))
+
+
+def enc_dval(v):
+    return "(DCa %d)" % v[1] if v[0] == "ca" else "DFn"
+
+
+def enc_pydict(items):
+    return lst("(%s, %s)" % (q(n), enc_dval(v)) for n, v in items)
+
+
+def enc_op(op):
+    k = op[0]
+    if k == "attrib":
+        return "(OAttrib %s)" % enc_attrib(op[1])
+    if k == "deco":
+        if op[1] == "s":
+            return "(ODecoS %s)" % enc_attrs_args(op[2])
+        return "(ODecoDefine %s)" % enc_define_cells(op[1], op[2])
+    if k == "newlist":
+        return "(ONewList %s)" % lst(q(s) for s in op[1])
+    if k == "newmeta":
+        return "(ONewMeta %s)" % lst(q(s) for s in op[1])
+    if k == "newdict":
+        return "(ONewDict %s)" % enc_pydict(op[1])
+    if k == "lappend":
+        return "(OListAppend %d %s)" % (op[1], q(op[2]))
+    if k == "mset":
+        return "(OMetaSet %d %s)" % (op[1], q(op[2]))
+    if k == "cavalidator":
+        return "(OCaValidator %d %s)" % (op[1], q(op[2]))
+    if k == "dset":
+        return "(ODictSet %d %s %s)" % (op[1], q(op[2][0]), enc_dval(op[2][1]))
+    if k == "ddel":
+        return "(ODictDel %d %s)" % (op[1], q(op[2]))
+    if k == "apply":
+        return "(OApply %d %s)" % (op[1], enc_body(op[2]))
+    if k == "make_class":
+        _, did, bid, kwargs, base = op
+        return "(OMakeClass (MK %d %s %s %s))" % (
+            did, "None" if bid is None else "(Some %d)" % bid, enc_attrs_args(kwargs), enc_base(base))
+    raise AssertionError(op)
+
+
+EXC = {"ValueError": "EValueError", "TypeError": "ETypeError",
+       "UnannotatedAttributeError": "EUnannotated"}
+KIND = {"absent": "KAbsent", "none": "KNone", "own": "KOwn", "gen": "KGen"}
+
+
+def enc_fp(fp):
+    if fp["exc"] is not None:
+        return "(FExc %s)" % EXC.get(fp["exc"], "EOther")
+    if fp["construct"]["exc"] is not None or fp["assign"] is None or isinstance(fp["sig"], str):
+        return "(FExc EOther)"      # something the model cannot express: forces a mismatch
+    flds = lst("(PF %s %s %s %s %s %s %s %s)" % (
+        q(f["n"]), b(f["kw"]), b(f["d"]), b(f["init"]), lst(q(s) for s in f["v"]),
+        lst(q(s) for s in f["c"]), lst(q(s) for s in f["m"]), b(f["inh"])) for f in fp["fields"])
+    sig = "None" if fp["sig"] is None else "(Some %s)" % lst(
+        "(%s, %s, %s)" % (q(n), b(kw), b(d)) for n, kw, d in fp["sig"])
+    asg = lst("(%s, %s)" % (q(n), "AFrozen" if exc == "FrozenInstanceError" else
+                            "(AFired %s)" % lst(q(s) for s in (log + (["!" + exc] if exc else []))))
+              for n, log, exc in fp["assign"])
+    c = fp["construct"]
+    return "(FOk (FP %s %s %s %s %s %s %s %s %s %s))" % (
+        flds, KIND[fp["hash"]], KIND[fp["eq"]], KIND[fp["init"]], sig, b(c["pre"]), b(c["post"]),
+        b(c["own"]), opt_b(fp["hashes"]), asg)
+
+
+def mk_case(ops, scenario="?"):
+    counter = attr._make._CountingAttr.cls_counter
+    full, alone, cont = observe(ops)
+    term = "(Build_case %s %s %s %s %s %s %s)" % (
+        vlib.z(counter), lst(enc_op(o) for o in ops), lst(enc_fp(f) for f in full),
+        lst(enc_fp(f) for f in alone),
+        lst(lst(q(s) for s in l) for l in cont["lists"]),
+        lst(lst(q(s) for s in m) for m in cont["metas"]),
+        lst(enc_pydict(d) for d in cont["dicts"]))
+    leaks = [k for k in range(len(full)) if full[k] != alone[k]]
+    sig = {"scenario": scenario, "leak": bool(leaks)}
+    seen = {"full": full, "alone": alone, "containers": cont, "differs_at": leaks}
+    ndefs = len(full)
+    return Case(term, {"ops": ops, "scenario": scenario}, seen, sig=sig, nontrivial=ndefs >= 2,
+                key=repr(ops))
+
+
+# ------------------------------------------------------------------------------------------
+# catalogue
+
+
+def _f(n, e="own", ann=False, cv=False, sid=None, **a):
+    d = {"n": n, "e": e, "ann": ann}
+    if cv:
+        d["cv"] = True
+    if e == "own":
+        d["a"] = a
+    if e == "shared":
+        d["sid"] = sid
+    return d
+
+
+def _body(fields, base="obj", **own):
+    return {"fields": fields, "base": base, "own": own}
+
+
+V12 = ["lit", ["v1", "v2"]]
+C12 = ["lit", ["c1", "c2"]]
+
+BODIES = {
+    "plain_ib": _body([_f("x"), _f("y", d=True)]),
+    "plain_ann": _body([_f("x", ann=True), _f("y", ann=True, d=True)]),
+    "ann_only": _body([_f("x", e="none", ann=True), _f("y", e="val", ann=True)]),
+    "mixed_unann": _body([_f("x", ann=True), _f("y", d=True)]),
+    "val_noann": _body([_f("x"), _f("k", e="val")]),
+    "own_hash": _body([_f("x")], hash=True),
+    "own_eq": _body([_f("x", ann=True)], eq=True),
+    "own_hash_eq": _body([_f("x")], hash=True, eq=True),
+    "own_setattr_v": _body([_f("x", ann=True, v=["one", "v1"])], setattr=True),
+    "own_setattr": _body([_f("x")], setattr=True),
+    "own_init": _body([_f("x", ann=True)], init=True),
+    "fb_plain": _body([_f("x", d=True)], base="frozen"),
+    "fb_conv": _body([_f("x", ann=True, d=True, c=["one", "c1"])], base="frozen"),
+    "fbd_conv_val": _body([_f("x", ann=True, d=True, c=["one", "c1"], v=["one", "v1"])], base="frozend"),
+    "fb_hook": _body([_f("x", d=True, h=["one", "h1"])], base="frozen"),
+    "fb_own_setattr": _body([_f("x", d=True)], base="frozen", setattr=True),
+    "fb_own_hash": _body([_f("x", ann=True, d=True)], base="frozend", hash=True),
+    "hb_plain": _body([_f("x", ann=True, d=True)], base="hooked"),
+    "hb_val": _body([_f("x", d=True, v=["one", "v1"])], base="hookedd"),
+    "hb_own_setattr": _body([_f("x", d=True)], base="hookedd", setattr=True),
+    "hb_override": _body([_f("a", ann=True, d=True, c=["one", "c2"])], base="hooked"),
+    "pb_plain": _body([_f("x", d=True)], base="plain"),
+    "post_base": _body([_f("x", ann=True, d=True)], base="post"),
+    "exc_base": _body([_f("x", ann=True), _f("y", ann=True, d=True)], base="exc"),
+    "exc_own_hash": _body([_f("x")], base="exc", hash=True),
+    "conv_val": _body([_f("x", ann=True, c=C12, v=V12), _f("y", ann=True, d=True, v=["one", "v3"])]),
+    "conv_only": _body([_f("x", c=["one", "c3"])]),
+    "field_hooks": _body([_f("x", h=["one", "h1"]), _f("y", d=True, h="noop", v=["one", "v1"]),
+                          _f("z", d=True, h=["lit", ["convert", "h2"]], c=["one", "c1"])]),
+    "kw_fields": _body([_f("x", ann=True, d=True), _f("y", ann=True, kw=True)]),
+    "bad_order": _body([_f("x", d=True), _f("y")]),
+    "pre_post": _body([_f("x", ann=True)], pre=True, post=True),
+    "post_only": _body([_f("x")], post=True),
+    "meta_lit": _body([_f("x", ann=True, m=["lit", ["k1", "k2"]])]),
+    "classvar": _body([_f("k", e="val", ann=True, cv=True), _f("y", ann=True)]),
+    "init_false": _body([_f("x", init=False), _f("y")]),
+    "empty": _body([]),
+    "eq_frozen_base": _body([_f("x", ann=True, d=True)], base="frozen", eq=True),
+}
+
+DECOS = {
+    "s_ad_frozen": ("s", {"auto_detect": True, "frozen": True}),
+    "s_ad": ("s", {"auto_detect": True}),
+    "s": ("s", {}),
+    "define": ("define", {}),
+    "define_dict": ("define", {"slots": False}),
+    "frozen": ("frozen", {}),
+    "mutable_hooks": ("mutable", {"on_setattr": ["lit", ["h1", "validate"]]}),
+    "s_ad_frozen_cache": ("s", {"auto_detect": True, "frozen": True, "cache_hash": True}),
+    "s_kw": ("s", {"kw_only": True}),
+    "s_aa": ("s", {"auto_attribs": True}),
+    "define_noop": ("define", {"on_setattr": "noop"}),
+    "s_validate": ("s", {"on_setattr": ["one", "validate"]}),
+    "s_ad_slots": ("s", {"slots": True, "auto_detect": True}),
+    "define_kw": ("define", {"kw_only": True}),
+    "s_unsafe_hash": ("s", {"unsafe_hash": True}),
+    "s_eq_false": ("s", {"eq": False}),
+    "define_aa": ("define", {"auto_attribs": True}),
+    "s_exc_slots": ("s", {"auto_exc": True, "auto_detect": True, "slots": True}),
+    "s_hash_false_slots": ("s", {"hash": False, "slots": True}),
+    "define_convert": ("define", {"on_setattr": ["one", "convert"]}),
+    "frozen_dict_ad": ("frozen", {"slots": False}),
+    "s_invalid": ("s", {"eq": False, "order": True}),
+}
+
+CORE_BODIES = ["plain_ib", "plain_ann", "mixed_unann", "own_hash", "own_eq", "own_setattr_v",
+               "fb_conv", "fb_own_setattr", "hb_plain", "hb_val", "exc_base", "conv_val",
+               "field_hooks", "bad_order", "pre_post", "own_init"]
+CORE_DECOS = ["s_ad_frozen", "s_ad", "s", "define", "define_dict", "frozen", "mutable_hooks",
+              "s_ad_frozen_cache", "s_kw", "define_noop", "s_ad_slots", "s_validate"]
+
+
+def shared_deco_case(deco, names):
+    kind, kw = DECOS[deco]
+    ops = [["deco", kind, kw]] + [["apply", 0, BODIES[n]] for n in names]
+    return mk_case(ops, scenario="shared-decorator:" + deco)
+
+
+# ------------------------------------------------------------------------------------------
+# scenarios with shared containers
+
+CONT_BODIES = ["plain_ib", "own_hash", "fb_plain", "pre_post", "hb_plain", "empty", "own_setattr",
+               "exc_base", "own_init"]
+HOOK_NAMES = ["__attrs_pre_init__", "__attrs_post_init__", "__init__"]
+
+
+def these_cases(rng, thorough):
+    out = []
+    cas = [["attrib", {"v": ["one", "v1"]}], ["attrib", {"d": True, "c": ["one", "c1"]}],
+           ["attrib", {"d": True, "kw": True}]]
+    nd = ["newdict", [["x", ["ca", 0]], ["y", ["ca", 1]]]]
+    decos = [("s", {"these": 0}), ("s", {"these": 0, "kw_only": True}),
+             ("s", {"these": 0, "auto_detect": True, "frozen": True}), ("define", {"these": 0}),
+             ("s", {"these": 0, "on_setattr": ["one", "validate"]})]
+    muts = [[], [["dset", 0, ["z", ["ca", 2]]]], [["ddel", 0, "y"]], [["cavalidator", 0, "v2"]],
+            [["dset", 0, ["x", ["ca", 2]]]]]
+    bodies = CONT_BODIES if thorough else CONT_BODIES[:6]
+    for (kind, kw), mut in itertools.product(decos, muts):
+        pairs = list(itertools.permutations(bodies, 2))
+        if not thorough:
+            pairs = rng.sample(pairs, 6)
+        for a, bb in pairs:
+            ops = cas + [nd, ["deco", kind, kw], ["apply", 0, BODIES[a]]] + mut + [["apply", 0, BODIES[bb]]]
+            out.append(mk_case(ops, scenario="shared-these"))
+    # two decorator objects over one `these` dict: class-level kw_only must not stick to the attr.ib()s
+    for d0, d1 in itertools.permutations([("s", {"these": 0, "kw_only": True}), ("s", {"these": 0}),
+                                          ("define", {"these": 0, "kw_only": True}),
+                                          ("frozen", {"these": 0})], 2):
+        for a, bb in (itertools.product(bodies, repeat=2) if thorough else [("plain_ib", "empty"), ("fb_plain", "own_hash")]):
+            for order in ([0, 1], [1, 0], [0, 1, 0]):
+                ops = cas + [nd, ["deco"] + list(d0), ["deco"] + list(d1)] + \
+                      [["apply", i, BODIES[a if n % 2 == 0 else bb]] for n, i in enumerate(order)]
+                out.append(mk_case(ops, scenario="shared-these-two-decorators"))
+    return out
+
+
+def make_class_cases(rng, thorough):
+    out = []
+    cas = [["attrib", {"v": ["one", "v1"]}], ["attrib", {"d": True, "c": ["one", "c1"]}],
+           ["attrib", {"d": True}]]
+    kws = [{}, {"frozen": True}, {"auto_detect": True}, {"kw_only": True}, {"slots": True},
+           {"on_setattr": ["lit", ["convert", "validate"]]}, {"auto_detect": True, "frozen": True},
+           {"unsafe_hash": True}, {"eq": False, "order": True}]
+    bases = ["obj", "frozen", "hooked", "post", "exc", "plain"]
+    hook_sets = [[], ["__attrs_post_init__"], ["__attrs_pre_init__", "__attrs_post_init__"],
+                 ["__init__"], HOOK_NAMES]
+    body_sets = [None, [], ["__hash__"], ["__attrs_post_init__"], ["__setattr__", "__eq__"],
+                 ["__init__", "__attrs_pre_init__"]]
+    muts = [[], [["dset", 0, ["z", ["ca", 2]]]], [["ddel", 0, "__attrs_post_init__"]],
+            [["dset", 0, ["__attrs_post_init__", ["fn"]]]], [["dset", 1, ["__hash__", ["fn"]]]]]
+    combos = list(itertools.product(hook_sets, body_sets))
+    n_each = 40 if thorough else 6
+    for hooks, body in combos:
+        for _ in range(n_each):
+            items = [["x", ["ca", 0]], ["y", ["ca", 1]]]
+            pos = rng.randrange(len(items) + 1)
+            items = items[:pos] + [[h, ["fn"]] for h in hooks] + items[pos:]
+            ops = cas + [["newdict", items]]
+            bid = None
+            if body is not None:
+                ops.append(["newdict", [[n, ["fn"]] for n in body]])
+                bid = 1
+            n_defs = rng.choice([2, 2, 3])
+            for i in range(n_defs):
+                if i:
+                    m = rng.choice(muts)
+                    if not (m and m[0][1] == 1 and bid is None):
+                        ops = ops + m
+                if rng.random() < 0.15:
+                    # the same dict handed to attr.s(these=...) in between
+                    ops = ops + [["deco", "s", {"these": 0}], ["apply", sum(1 for o in ops if o[0] == "deco"),
+                                                               BODIES[rng.choice(CONT_BODIES)]]]
+                else:
+                    ops = ops + [["make_class", 0, bid if rng.random() < 0.8 else None,
+                                  rng.choice(kws), rng.choice(bases)]]
+            out.append(mk_case(ops, scenario="make_class"))
+    return out
+
+
+def shared_ca_cases(rng, thorough):
+    out = []
+    ca_args = [{"v": ["one", "v1"]}, {"d": True, "c": ["one", "c1"], "m": ["lit", ["k1"]]},
+               {"d": True, "h": ["one", "h1"]}, {"kw": True}]
+    decos = ["s", "s_kw", "define", "define_kw", "s_ad_frozen", "frozen", "define_dict", "s_aa",
+             "mutable_hooks"]
+    muts = [[], [["cavalidator", 0, "v2"]]]
+    shapes = [
+        lambda ann: [_f("x", e="shared", sid=0, ann=ann)],
+        lambda ann: [_f("y", ann=ann, d=True), _f("x", e="shared", sid=0, ann=ann)],
+        lambda ann: [_f("x", e="shared", sid=0, ann=ann), _f("y", ann=ann, d=True, v=["one", "v3"])],
+        lambda ann: [_f("p", e="shared", sid=0, ann=ann), _f("q", e="shared", sid=0, ann=ann)],
+    ]
+    combos = list(itertools.product(ca_args, itertools.permutations(decos, 2), muts))
+    if not thorough:
+        combos = rng.sample(combos, 120)
+    for ca, (d0, d1), mut in combos:
+        sh = [rng.choice(shapes) for _ in range(3)]
+        bases = [rng.choice(["obj", "obj", "frozen", "hooked"]) for _ in range(3)]
+        anns = [rng.random() < 0.5 for _ in range(3)]
+        ops = [["attrib", ca], ["deco"] + list(DECOS[d0]), ["deco"] + list(DECOS[d1]),
+               ["apply", 0, _body(sh[0](anns[0]), base=bases[0])]] + mut + \
+              [["apply", 1, _body(sh[1](anns[1]), base=bases[1])]]
+        if rng.random() < 0.4:
+            ops.append(["apply", 0, _body(sh[2](anns[2]), base=bases[2])])
+        out.append(mk_case(ops, scenario="shared-attr.ib"))
+    return out
+
+
+def meta_list_cases(rng, thorough):
+    out = []
+    decos = ["s", "define", "define_dict", "frozen", "mutable_hooks", "s_validate", "s_ad"]
+    n = 600 if thorough else 120
+    for _ in range(n):
+        ops = [["newlist", ["v1"]], ["newlist", ["c1"]], ["newlist", ["h1"]], ["newmeta", ["k1"]]]
+        # a shared attr.ib() built from the shared containers
+        ops.append(["attrib", {"d": True, "v": ["list", 0], "c": ["list", 1], "m": ["dict", 0]}])
+        nd = rng.choice([1, 2])
+        for _i in range(nd):
+            r = rng.random()
+            if r < 0.25:
+                ops.append(["deco", "mutable", {"on_setattr": ["list", 2]}])
+            elif r < 0.4:
+                ops.append(["deco", "s", {"on_setattr": ["list", 2]}])
+            else:
+                ops.append(["deco"] + list(DECOS[rng.choice(decos)]))
+
+        def body():
+            fs = []
+            for name in rng.sample(["x", "y", "z"], rng.choice([1, 2])):
+                if rng.random() < 0.25:
+                    fs.append(_f(name, e="shared", sid=0, ann=True))
+                    continue
+                a = {"d": True}
+                if rng.random() < 0.6:
+                    a["v"] = ["list", 0]
+                if rng.random() < 0.5:
+                    a["c"] = ["list", 1]
+                if rng.random() < 0.3:
+                    a["h"] = ["list", 2]
+                if rng.random() < 0.6:
+                    a["m"] = ["dict", 0]
+                fs.append(_f(name, ann=True, **a))
+            return _body(fs, base=rng.choice(["obj", "obj", "hooked", "frozen"]))
+        muts = [["lappend", 0, "v2"], ["lappend", 1, "c2"], ["lappend", 2, "validate"],
+                ["lappend", 2, "h2"], ["mset", 0, "k2"], ["mset", 0, "k3"], ["cavalidator", 0, "v3"]]
+        for i in range(rng.choice([2, 2, 3])):
+            if i:
+                ops += rng.sample(muts, rng.choice([0, 1, 1, 2]))
+            ops.append(["apply", rng.randrange(nd), body()])
+        if rng.random() < 0.5:
+            ops += rng.sample(muts, 1)       # a mutation AFTER the last definition
+        out.append(mk_case(ops, scenario="shared-metadata-and-lists"))
+    return out
+
+
+_PAIR_MEMO = {}
+
+
+def generate(tier, seed):
+    rng = random.Random(seed)
+    thorough = tier == "thorough"
+    _alone_cache.clear()
+    cases = []
+    names = list(BODIES)
+    # 1. one shared decorator object, all ordered pairs
+    for d in DECOS:
+        pool = names if (thorough or d in CORE_DECOS[:4]) else CORE_BODIES
+        if not thorough and d not in CORE_DECOS:
+            pool = rng.sample(CORE_BODIES, 8)
+        for a, bb in itertools.product(pool, repeat=2):
+            cases.append(shared_deco_case(d, [a, bb]))
+    # 2. triples / longer histories (sampled)
+    n_long = 6000 if thorough else 500
+    dn = list(DECOS)
+    for _ in range(n_long):
+        d = rng.choice(dn)
+        k = rng.choice([3, 3, 3, 4, 5])
+        cases.append(shared_deco_case(d, [rng.choice(names) for _ in range(k)]))
+    # 3. shared containers
+    cases += these_cases(rng, thorough)
+    cases += make_class_cases(rng, thorough)
+    cases += shared_ca_cases(rng, thorough)
+    cases += meta_list_cases(rng, thorough)
+    return cases
+
+
+def rerun(inp):
+    _alone_cache.clear()
+    return mk_case(inp["ops"], scenario=inp.get("scenario", "?"))
+
+
+def corpus():
+    import importlib.util
+    import os
+    spec = importlib.util.spec_from_file_location("verif_defects", os.path.join(vlib.VERIF, "corpus", "defects.py"))
+    m = importlib.util.module_from_spec(spec)
+    spec.loader.exec_module(m)
+    return [(k, f) for k, f in m.ALL.items() if "_C16_" in k]
+
+
+def EXHAUSTIVE(tier):
+    return False
+
+
+def distribution(cases):
+    from collections import Counter
+    sc = Counter(c.inp["scenario"].split(":")[0] for c in cases)
+    nd = Counter(sum(1 for o in c.inp["ops"] if o[0] in DEF_OPS) for c in cases)
+    excs = Counter()
+    for c in cases:
+        for f in c.seen["full"]:
+            excs[f["exc"] or "built"] += 1
+    return {"scenarios": dict(sc), "definitions_per_history": dict(sorted(nd.items())),
+            "definition_results": dict(excs)}
